@@ -104,6 +104,19 @@ check("C13",
       "TLA+ editing-block model (C13_MC) + refinement clauses (C13_Subdivision over MeshCore/Rat) checked with TLC; replay on real meshes; TLC trace validation (C13_Trace, C01_Trace)",
       "DESIGN.md 6.13")
 
+check("C02",
+      "TLC evaluates Build(raw) - written from the statement - on every raw input of a bounded family (6 600 quick / 53 560 "
+      "thorough: declared edges incl. self-loops, reversed and out-of-range pairs; faces of arity 3-5; one or two tetrahedra, "
+      "a hexahedron; sparse edge attribute; both completion switches) and checks that the result is well formed and that "
+      "building again changes nothing. Each raw input (sampled) plus random larger ones is constructed in the real library "
+      "through lists, tuples, numpy rows and from_arrays; every container, corner record (element and owner), hard flag, "
+      "attribute value and the class of the finished mesh are validated by TLC against Build, and again after building a "
+      "second time from the built mesh; surfaces built from each container type are also queried and judged by C01_Trace.",
+      "Declared edge lists without duplicates; cells only with face completion on; from_arrays only for regular arities. "
+      "Completed edges compared as a set, completed faces up to rotation. Construction from files is judged under C04; volume queries under C03.",
+      "TLA+ Build/Rebuild functions (C02_Build) checked with TLC over an exhaustive raw-input family; replay through 4 container types; TLC trace validation (C02_Trace, C01_Trace)",
+      "DESIGN.md 6.2")
+
 ALL = ["C%02d" % i for i in range(1, 21)]
 
 
